@@ -54,6 +54,7 @@ type JobSpec struct {
 	Canary  bool              `json:"canary,omitempty"` // also run the falsified twin (once, on the first param tuple)
 	Tiers   []string          `json:"tiers,omitempty"`  // restrict to tiers
 	Bounds  string            `json:"bounds,omitempty"`
+	MustReach []string        `json:"must_reach,omitempty"` // reachability witnesses: each label must be reached by some instance of this job
 	NoReplay bool             `json:"no_replay,omitempty"` // schedule-dependent: counterexamples are not replayed natively
 }
 
